@@ -277,3 +277,22 @@ Example placement_nonvacuous :
   insert_before [RP 0; RI 1; RP 1; RI 2; RI 3] (-2)%Z [7; 8]
   = Some [RP 0; RI 1; RP 1; RI 7; RI 8; RI 2; RI 3].
 Proof. reflexivity. Qed.
+
+(* ------------------------------------------------------------------------------------------ *)
+(* Model B': the provider never applies an operator or method to a value whose class may define it *)
+Lemma provider_touches_builtins_only : forall e a b c, In c (touches e a b) -> user_defined c = false.
+Proof.
+  intros e a b c H. destruct e; simpl in H.
+  - contradiction.
+  - destruct a; simpl in H; try contradiction. destruct H as [<-|H]; [reflexivity|contradiction].
+  - destruct a, b; simpl in H; try contradiction;
+      repeat (destruct H as [<-|H]; [reflexivity|]); contradiction.
+Qed.
+
+Lemma provider_no_user_code : forall e a b, existsb user_defined (touches e a b) = false.
+Proof. intros e a b. destruct e, a, b; reflexivity. Qed.
+
+Lemma provider_keeps_builtin_behaviour :
+  stores EAddConcat VStr VStr = true /\ stores EAddConcat VBytes VBytes = true /\
+  stores EAddValue VStr = fun _ => true.
+Proof. repeat split. Qed.
